@@ -7,6 +7,7 @@ type Sub struct {
 	Config  string // VERIF_CONFIG
 	Weight  int    // share of the search budget
 	Note    string
+	Native  bool // single-task configuration that can also run against the un-rewritten tree (verif check --native)
 }
 
 // Prop describes how one property is checked.
